@@ -31,6 +31,7 @@ InputToks == Plain \cup (IF AllowMarkerPrefixedInputs THEN PrefixedInputs ELSE {
 \* what the imputer appends: whole placeholder tokens (or ordinary compounds)
 AddedToks == {Tok("[H]", ""), Tok("[O]", ""), Tok("OO", ""), Tok("", "O")}
 
+AllToks == Plain \cup PrefixedInputs \cup AddedToks
 IsMarker(t, m) == t.head = m /\ t.rest = ""
 StartsWith(t, m) == t.head = m
 
@@ -44,12 +45,22 @@ TokCount(s, m) == Cardinality({j \in 1..Len(s) : IsMarker(s[j], m)})
 \* its dot: a whole marker token disappears, a longer token is glued to its
 \* predecessor (the molecule is destroyed: GLUED)
 Glued == Tok("", "GLUED")
-RECURSIVE LitRemove(_, _, _)
-LitRemove(s, m, j) ==
-    IF j > Len(s) THEN <<>>
+RECURSIVE LitRemoveAcc(_, _, _, _)
+LitRemoveAcc(s, m, j, acc) ==
+    IF j > Len(s) THEN acc
     ELSE IF j >= 2 /\ StartsWith(s[j], m)
-         THEN (IF s[j].rest = "" THEN <<>> ELSE <<Glued>>) \o LitRemove(s, m, j + 1)
-         ELSE <<s[j]>> \o LitRemove(s, m, j + 1)
+         THEN (IF s[j].rest = ""
+               THEN LitRemoveAcc(s, m, j + 1, acc)                       \* ".[H]" vanishes
+               ELSE \* ".[H]C" -> "C" is glued to the text of the token before it: both are destroyed
+                    \* (glued onto a bare marker token the text reads as that marker followed by the rest)
+                    LitRemoveAcc(s, m, j + 1,
+                                 IF acc = <<>> THEN <<Glued>>
+                                 ELSE LET prev == acc[Len(acc)] IN
+                                      SubSeq(acc, 1, Len(acc) - 1)
+                                      \o << IF prev.head # "" /\ prev.rest = "" /\ Tok(prev.head, s[j].rest) \in AllToks
+                                            THEN Tok(prev.head, s[j].rest) ELSE Glued >>))
+         ELSE LitRemoveAcc(s, m, j + 1, Append(acc, s[j]))
+LitRemove(s, m, j) == LitRemoveAcc(s, m, 1, <<>>)
 
 BagRemove(s, m) == SelectSeq(s, LAMBDA t : ~IsMarker(t, m))
 
